@@ -43,6 +43,16 @@ def _strip_doc(body: list[ast.stmt]) -> list[ast.stmt]:
     return body
 
 
+def _walk_own(fn: ast.AST):  # noqa: ANN201
+    """nodes of a function, not those of the functions and classes nested in it"""
+    todo = list(ast.iter_child_nodes(fn))
+    while todo:
+        n = todo.pop()
+        yield n
+        if not isinstance(n, (ast.FunctionDef, ast.AsyncFunctionDef, ast.Lambda, ast.ClassDef)):
+            todo.extend(ast.iter_child_nodes(n))
+
+
 def _is_generator(fn: ast.AST) -> bool:
     stack = list(fn.body)  # type: ignore[attr-defined]
     while stack:
@@ -310,9 +320,9 @@ class Inliner:
         fn = fi.node
         used = {n.id for n in ast.walk(fn) if isinstance(n, ast.Name)} | {a.arg for a in ast.walk(fn) if isinstance(a, ast.arg)}
 
-        def helper_body(u, call: ast.Call, receiver, same: set[str] = frozenset()):  # noqa: ANN001
+        def helper_body(u, call: ast.Call, receiver, same: set[str] = frozenset(), allow_gen: bool = False):  # noqa: ANN001
             un = u.node
-            if _is_generator(un) or (isinstance(un, ast.AsyncFunctionDef) and not isinstance(fn, ast.AsyncFunctionDef)):
+            if (_is_generator(un) and not allow_gen) or (isinstance(un, ast.AsyncFunctionDef) and not isinstance(fn, ast.AsyncFunctionDef)):
                 return None
             decos = {ast.unparse(d).split('(')[0] for d in un.decorator_list}
             if decos - {'staticmethod', 'classmethod'}:
@@ -381,6 +391,22 @@ class Inliner:
                                 changed = True
                                 self.inlined.append('%s -> %s (branching)' % (t[0].qualname, fi.qualname))
                                 continue
+                # `yield from helper(...)` as a whole statement, the helper a generator that never returns early: its
+                # statements (yields included) run where the delegation stood
+                if isinstance(st, ast.Expr) and isinstance(st.value, ast.YieldFrom) and isinstance(st.value.value, ast.Call):
+                    gcall = st.value.value
+                    t = self._target(fi, gcall)
+                    if t is not None and _is_generator(t[0].node) and not isinstance(t[0].node, ast.AsyncFunctionDef) and not any(isinstance(n, ast.Return) for n in _walk_own(t[0].node)):
+                        hb = helper_body(t[0], gcall, t[1], allow_gen=True)
+                        if hb is not None:
+                            body, pre = hb
+                            for x in pre + body:
+                                ast.fix_missing_locations(x)
+                            _relocate(pre + body, st)
+                            out.extend(pre + body)
+                            changed = True
+                            self.inlined.append('%s -> %s (yield from)' % (t[0].qualname, fi.qualname))
+                            continue
                 call, kind = _whole_call(st)
                 if call is not None:
                     t = self._target(fi, call)
@@ -506,8 +532,15 @@ def _relocate(stmts: list[ast.stmt], site: ast.AST, origin: str | None = None) -
     base = site.lineno  # type: ignore[attr-defined]
     end = getattr(site, 'end_lineno', base) or base
     k = 0
+
+    def in_source_order(n: ast.AST):  # noqa: ANN202
+        # depth first, children in field order: the order of the text (ast.walk is breadth first)
+        yield n
+        for c in ast.iter_child_nodes(n):
+            yield from in_source_order(c)
+
     for st in stmts:
-        for n in ast.walk(st):
+        for n in in_source_order(st):
             if hasattr(n, 'lineno'):
                 if getattr(n, '_orig_pos', None) is None:
                     n._orig_pos = (n.lineno, n.col_offset, getattr(n, 'end_lineno', None), getattr(n, 'end_col_offset', None))  # type: ignore[attr-defined]
